@@ -23,4 +23,4 @@ for p in C01 C02 C03 C04 C05 C06 C07 C08 C09 C10 C11 C12 C13 C14 C15 C16 C17 C18
   rc=$(cat "$tmp/$p.rc")
   if [ "$rc" != 0 ]; then alarms=$((alarms+1)); echo "FALSE-ALARM $p rc=$rc"; grep '^NEW\|hlcheck:' "$tmp/$p.out" | cut -c1-300 | head -4; fi
 done
-echo "RESULT alarms=$alarms $(basename $(dirname $(dirname $patch)))/$(basename $(dirname $patch))"
+echo "RESULT alarms=$alarms $(basename $(dirname $patch))"
